@@ -123,6 +123,8 @@ def check_filter_and_literal(rec, lab, name, finder, s, case):
         return
     if base is None:
         return
+    if len(base) != len(set(base)):
+        rec.violation("duplicates", dict(case, finder=name, rule="match", search=s), repr(base[:8]))
     try:
         forms = lab.allmodel.unfold(s)
     except Exception:
@@ -205,6 +207,13 @@ def check_filter_and_literal(rec, lab, name, finder, s, case):
                         rec.violation("algebra_literal", c, "missing=%r extra=%r" % (sorted(exp - set(got))[:5], sorted(set(got) - exp)[:5]))
 
 
+def add_dup_finder(lab):
+    """A list source that carries some entries more than once (concatenated exports): results still never contain duplicates."""
+    from spil import FindInList
+    L = list(lab.list)
+    lab.finders["list_dup"] = FindInList(L + L[::3] + L[::7])
+
+
 def worker(args):
     from lib.findlab import Lab, filter_is_unspecified
     rec = Rec("C10")
@@ -214,6 +223,7 @@ def worker(args):
         c = args["replay"]
         rec.ev()
         lab.new_universe(ents=c["ents"], names=c.get("names"), only_default=c.get("only_default"))
+        add_dup_finder(lab)
         f = lab.finders[c["finder"]]
         if c.get("rule") in ("comma", "alias", "dstar"):
             for rule, ders, post in derive(lab, c["search"]):
@@ -227,6 +237,7 @@ def worker(args):
     for u in range(args["universes"]):
         ents = lab.new_universe(names=(rng.sample(["a", "a-b", "ab", "b", "oph", "x_rig", "a.b", "rig"], 3) if rng.random() < 0.5
                                         else sorted({"rig", "x_rig", rng.choice(["a", "b", "oph"])})))
+        add_dup_finder(lab)
         uid = "%s-%d" % (args.get("seed"), u)
         case = {"ents": ents, "names": lab.names, "only_default": lab.only_default, "uid": uid}
         for k in range(args["searches"]):
